@@ -202,6 +202,30 @@ impl ConciseFreeResources {
     }
 }
 
+#[cfg(feature = "verif")]
+impl ConciseResourceState {
+    /// Verification hook (read-only): per group the free units and the fraction map sorted by index.
+    pub(crate) fn verif_snapshot(&self) -> Vec<(u32, Vec<(u32, u32)>)> {
+        self.free
+            .iter()
+            .map(|g| {
+                let mut v: Vec<(u32, u32)> =
+                    g.fractions.iter().map(|(k, f)| (k.as_num(), *f)).collect();
+                v.sort_unstable();
+                (g.units, v)
+            })
+            .collect()
+    }
+}
+
+#[cfg(feature = "verif")]
+impl ConciseFreeResources {
+    /// Verification hook (read-only): the per-resource states.
+    pub(crate) fn verif_states(&self) -> &[ConciseResourceState] {
+        &self.resources
+    }
+}
+
 #[cfg(test)]
 mod tests {
     use crate::Map;
